@@ -15,7 +15,7 @@ build() {
 case "${1:-}" in
   setup)
     build
-    (cd mc && go vet ./exact ./rt >/dev/null 2>&1; go test -count=1 ./exact ./rt 2>&1 | tail -3)
+    "$BIN/verif" warm || exit 1
     exit 0 ;;
   replay)
     build
